@@ -211,7 +211,7 @@ def reset_db(path: str) -> bool:
         forget(path)
         return False
     idle = POOL.get(path)
-    conn = idle.pop() if idle else _sqlite3.connect(path, timeout=0.0, check_same_thread=False)
+    conn = idle.pop() if idle else _sqlite3.connect(path, timeout=30.0, check_same_thread=False)
     try:
         names = [r[0] for r in conn.execute("SELECT name FROM sqlite_master WHERE type='table'").fetchall()]
         for n in names:
